@@ -1295,6 +1295,32 @@ func oracleFinal(r *Run, s *sched, cfg cacheCfg, cache *ristretto.Cache[uint64, 
 	cache.Wait()
 	cache.Clear()
 	cache.Close()
+	// ... every operation of the public API, not only the common ones, must be a harmless no-op
+	// (nobody releases yield points any more: the hooks are taken out first)
+	ristretto.VerifPointFn = nil
+	ristretto.VerifObserveFn = nil
+	func() {
+		defer func() {
+			if p := recover(); p != nil {
+				r.Fail("C15", fmt.Sprintf("an operation on the closed cache panicked: %v", p), in+" | then on the closed cache: GetTTL, SetWithTTL, IterValues, MaxCost, UpdateMaxCost, RemainingCost")
+			}
+		}()
+		if _, ok := cache.GetTTL(1); ok {
+			r.Fail("C15", "GetTTL found a key after Close", in)
+		}
+		if cache.SetWithTTL(2, 99998, 1, time.Second) {
+			r.Fail("C15", "SetWithTTL returned true after Close", in)
+		}
+		n := 0
+		cache.IterValues(func(uint64) bool { n++; return false })
+		if n != 0 {
+			r.Fail("C15", fmt.Sprintf("IterValues enumerated %d values after Close", n), in)
+		}
+		mc := cache.MaxCost()
+		cache.UpdateMaxCost(mc)
+		_ = cache.RemainingCost()
+		_ = cache.Metrics
+	}()
 	// C05: Del; Wait; Get must miss until the next Set (sequential view by seq numbers)
 	type kev struct {
 		seq  int
